@@ -70,8 +70,8 @@ def gen_model_spec(r: random.Random, plugin: str, tier: str, allow_full: bool = 
         spec: Dict[str, Any] = {"base": "full"}
     else:
         spec = {"base": "sub", "sub_seed": r.randrange(2**40), "lo": 2, "hi": 7 if plugin != "testdata" else 4}
-    if plugin == "testdata":
-        spec["for_plugin"] = "testdata"
+    if plugin in models.PLUGIN_EDITS:
+        spec["for_plugin"] = plugin
     if r.random() < 0.6:
         spec["n_edits"] = r.randint(1, 6)
         spec["edits_seed"] = r.randrange(2**40)
